@@ -82,10 +82,11 @@ Config == /\ Ev("Config")
           /\ UNCHANGED <<drift, stats>>
 Skip == /\ l <= Len(Trace) /\ Trace[l].ev \in {"Rejected", "Panic", "Hang", "LateChange", "Block", "EndBlock"} /\ l' = l + 1
         /\ UNCHANGED <<sem, pats, namesb, drift, stats>>
+Plain(e) == DOMAIN e.pre = {} /\ "layer" \notin DOMAIN e      \* nothing set earlier in the chain
 Serve == /\ Ev("Serve")
          /\ LET e == Trace[l] IN
-            /\ drift' = IF DOMAIN e.pre = {} /\ ~Conforms(e) THEN drift \cup {l} ELSE drift
-            /\ stats' = [stats EXCEPT !.compared = @ + (IF DOMAIN e.pre = {} THEN 1 ELSE 0),
+            /\ drift' = IF Plain(e) /\ ~Conforms(e) THEN drift \cup {l} ELSE drift
+            /\ stats' = [stats EXCEPT !.compared = @ + (IF Plain(e) THEN 1 ELSE 0),
                                       !.handled = @ + (IF e.invoked = 0 THEN 1 ELSE 0)]
          /\ UNCHANGED <<sem, pats, namesb>>
 
